@@ -159,7 +159,10 @@ class BodyMixin:
             b = self._get_body_string()
             if not b:
                 return None
-            return json_mod.loads(b)
+            try:
+                return json_mod.loads(b)
+            except (ValueError, RecursionError):
+                self._raise(BodyParsingError('Invalid JSON'), RequestError)
         return None
 
     @cache_in('environ[ ombott.request.post ]', read_only=True)
@@ -178,7 +181,11 @@ class BodyMixin:
         ctype = self.content_type
         if not ctype.startswith('multipart/'):
             if ctype.startswith('application/json'):
-                post.update(self.json)
+                data = self.json
+                if data is not None:
+                    if not isinstance(data, dict):
+                        self._raise(BodyParsingError('JSON object expected'), RequestError)
+                    post.update(data)
             else:
                 parse_qsl(
                     touni(self._get_body_string(), 'latin1'),
@@ -194,11 +201,15 @@ class BodyMixin:
         if markup is None:
             # should never happen since we check content-type
             # when reading body
-            raise BodyParsingError()
+            self._raise(BodyParsingError(), RequestError)
         elif markup.error is not None:
-            raise markup.error
+            self._raise(markup.error, RequestError)
         listified = set()
-        for item in FieldStorage.iter_items(body, markup.markups, self.config.max_memfile_size):
+        try:
+            items = list(FieldStorage.iter_items(body, markup.markups, self.config.max_memfile_size))
+        except RequestError as err:
+            self._raise(err, RequestError)
+        for item in items:
             if item.filename:
                 it = FileUpload(
                     item.file, item.name,
@@ -243,9 +254,9 @@ class BodyMixin:
     def _body(self):
         markup = None
         mp = MULTIPART_BOUNDARY_PATT.match(self.environ.get('CONTENT_TYPE', ''))
-        if mp is not None:
-            markup = MultipartMarkup(mp.group(1))
         try:
+            if mp is not None:
+                markup = MultipartMarkup(mp.group(1))
             body = _body_read(
                 self.environ['wsgi.input'].read,
                 self.config.max_memfile_size,
